@@ -51,8 +51,10 @@ func mergeHeaders(into, from http.Header) {
 	}
 }
 
-// exchangeHeaders are the headers that describe one HTTP exchange or carry
-// the protocols' own bookkeeping. The metadata of an error that was received
+// exchangeHeaders are the headers that frame the body of one HTTP exchange or
+// carry the protocols' own bookkeeping (descriptive headers such as
+// User-Agent or Date do no harm in another response and are an application's
+// to set). The metadata of an error that was received
 // from another server (a handler that returns what a client call returned)
 // holds that exchange's copies of them; they must not be copied into the
 // response that reports the error.
@@ -62,10 +64,7 @@ var exchangeHeaders = map[string]struct{}{ //nolint:gochecknoglobals
 	"Content-Encoding":         {},
 	"Transfer-Encoding":        {},
 	"Accept-Encoding":          {},
-	"Host":                     {},
-	"User-Agent":               {},
 	"Trailer":                  {},
-	"Date":                     {},
 	"Connect-Content-Encoding": {},
 	"Connect-Accept-Encoding":  {},
 	"Connect-Timeout-Ms":       {},
